@@ -538,8 +538,31 @@ func Corpus(tier string, embedded []*Schema) []*Schema {
 		oo.member(o, "a", 1, tBool, "")
 		om := newMsg(pkg, "OnlyMap")
 		om.mapField("m", 1, tBool, tBytes, "")
-		f.MessageType = append(f.MessageType, e.msg, oo.msg, om.msg)
+		// the field-less message used as a field type in every position (its only content can be unknown fields)
+		ue := newMsg(pkg, "UsesEmpty")
+		ue.field("one", 1, tMessage, e.path)
+		ue.repeated("many", 2, tMessage, e.path)
+		ue.mapField("by_name", 3, tString, tMessage, e.path)
+		uo := ue.oneof("kind")
+		ue.member(uo, "none", 4, tMessage, e.path)
+		ue.member(uo, "other", 5, tMessage, e.path)
+		ue.member(uo, "num", 6, tInt32, "")
+		f.MessageType = append(f.MessageType, e.msg, oo.msg, om.msg, ue.msg)
 		add(&Schema{Name: "edge", Files: []*descriptorpb.FileDescriptorProto{f}})
+		// standard field options that do not change the Go API: they must survive into the embedded descriptor
+		// together with the ones that do (packed)
+		g := file("vc/fieldopts.proto", "vc.fieldopts", goPkg("fieldopts", ""))
+		fo := newMsg("vc.fieldopts", "Opts")
+		fo.unpacked("ids", 1, tInt64, "").Options.Jstype = descriptorpb.FieldOptions_JS_STRING.Enum()
+		fo.unpacked("codes", 2, tUint32, "").Options.Ctype = descriptorpb.FieldOptions_CORD.Enum()
+		fo.repeated("packed_ids", 3, tSint64, "").Options = &descriptorpb.FieldOptions{Jstype: descriptorpb.FieldOptions_JS_NUMBER.Enum(), Packed: proto.Bool(true)}
+		fo.field("big", 4, tFixed64, "").Options = &descriptorpb.FieldOptions{Jstype: descriptorpb.FieldOptions_JS_STRING.Enum()}
+		fo.field("text", 5, tString, "").Options = &descriptorpb.FieldOptions{Ctype: descriptorpb.FieldOptions_STRING_PIECE.Enum()}
+		fo.field("lazy_sub", 6, tMessage, ".vc.fieldopts.Opts").Options = &descriptorpb.FieldOptions{Lazy: proto.Bool(true)}
+		fo.unpacked("flags", 7, tBool, "").Options.Deprecated = proto.Bool(true)
+		fo.unpacked("ratios", 8, tDouble, "").Options.Jstype = descriptorpb.FieldOptions_JS_NORMAL.Enum()
+		g.MessageType = append(g.MessageType, fo.msg)
+		add(&Schema{Name: "fieldopts", Files: []*descriptorpb.FileDescriptorProto{g}})
 	}
 
 	// ---- F1: sint32/sint64 oneof members (isolated)
@@ -808,6 +831,33 @@ func Corpus(tier string, embedded []*Schema) []*Schema {
 		add(&Schema{Name: "deprecated", Files: []*descriptorpb.FileDescriptorProto{f}})
 	}
 
+	// ---- source_code_info: comments of every placement (leading, trailing, detached; one line, several lines, awkward
+	// characters) on every element kind, the way protoc passes them on
+	{
+		pkg := "vc.comments"
+		f := file("vc/comments.proto", pkg, goPkg("comments", ""))
+		f.EnumType = append(f.EnumType, enum("Mood", "MOOD_UNSPECIFIED", 0, "MOOD_GOOD", 1))
+		m := newMsg(pkg, "Doc")
+		m.field("title", 1, tString, "")
+		m.repeated("pages", 2, tInt32, "")
+		m.mapField("index", 3, tString, tInt64, "")
+		m.field("mood", 4, tEnum, "."+pkg+".Mood")
+		o := m.oneof("body")
+		m.member(o, "text", 5, tString, "")
+		m.member(o, "blob", 6, tBytes, "")
+		in := m.nested("Section")
+		in.field("heading", 1, tString, "")
+		in.msg.EnumType = append(in.msg.EnumType, enum("Level", "LEVEL_ZERO", 0, "LEVEL_ONE", 1))
+		m.field("section", 7, tMessage, in.path)
+		e := newMsg(pkg, "Nothing")
+		f.MessageType = append(f.MessageType, m.msg, e.msg)
+		f.Service = append(f.Service, &descriptorpb.ServiceDescriptorProto{Name: proto.String("Docs"), Method: []*descriptorpb.MethodDescriptorProto{
+			{Name: proto.String("Fetch"), InputType: proto.String(e.path), OutputType: proto.String(m.path)},
+		}})
+		f.SourceCodeInfo = commentEverything(f)
+		add(&Schema{Name: "comments", Files: []*descriptorpb.FileDescriptorProto{f}})
+	}
+
 	// ---- plugin parameters other than features=: paths=source_relative, module=, M mappings; files to generate listed
 	// in reverse dependency order
 	{
@@ -866,4 +916,73 @@ func Corpus(tier string, embedded []*Schema) []*Schema {
 
 	out = append(out, embedded...)
 	return out
+}
+
+
+// commentEverything attaches comments to the syntax and package statements and to every message, field, oneof, enum,
+// enum value, service and method of the file (paths as protoc numbers them).
+func commentEverything(f *descriptorpb.FileDescriptorProto) *descriptorpb.SourceCodeInfo {
+	texts := []string{
+		" one line\n",
+		" first line\n second line\n\n after a blank line\n",
+		" tabs\tand \"quotes\" and `backticks` and a backslash \\ and */ and /* and %d %s\n",
+		" unicode: żółć ✓ — and trailing spaces   \n  indented continuation\n",
+		"no leading space\nTODO(x): something\n",
+		" ends without newline",
+	}
+	n := 0
+	next := func() string { n++; return texts[n%len(texts)] }
+	sci := &descriptorpb.SourceCodeInfo{}
+	add := func(path ...int32) {
+		loc := &descriptorpb.SourceCodeInfo_Location{Path: path, Span: []int32{int32(n), 0, int32(n), 10},
+			LeadingComments: proto.String(next())}
+		if n%2 == 0 {
+			loc.TrailingComments = proto.String(next())
+		}
+		if n%3 == 0 {
+			loc.LeadingDetachedComments = []string{next(), next()}
+		}
+		sci.Location = append(sci.Location, loc)
+	}
+	add(12) // syntax
+	add(2)  // package
+	var msg func(m *descriptorpb.DescriptorProto, path []int32)
+	ext := func(p []int32, more ...int32) []int32 { return append(append([]int32{}, p...), more...) }
+	msg = func(m *descriptorpb.DescriptorProto, path []int32) {
+		add(path...)
+		for i := range m.Field {
+			add(ext(path, 2, int32(i))...)
+		}
+		for i := range m.OneofDecl {
+			add(ext(path, 8, int32(i))...)
+		}
+		for i, e := range m.EnumType {
+			add(ext(path, 4, int32(i))...)
+			for j := range e.Value {
+				add(ext(path, 4, int32(i), 2, int32(j))...)
+			}
+		}
+		for i, nm := range m.NestedType {
+			if nm.GetOptions().GetMapEntry() {
+				continue
+			}
+			msg(nm, ext(path, 3, int32(i)))
+		}
+	}
+	for i, m := range f.MessageType {
+		msg(m, []int32{4, int32(i)})
+	}
+	for i, e := range f.EnumType {
+		add(5, int32(i))
+		for j := range e.Value {
+			add(5, int32(i), 2, int32(j))
+		}
+	}
+	for i, sv := range f.Service {
+		add(6, int32(i))
+		for j := range sv.Method {
+			add(6, int32(i), 2, int32(j))
+		}
+	}
+	return sci
 }
